@@ -140,13 +140,14 @@ class ChainIter:
 class CharStream:
     """`s.chars()` of a symbolic string as a positional stream: element k is the term at(src, k); whether it exists is the atom
     has(src, k) (monotone: has(k) ⇒ has(j) for j < k).  Clones share the source and keep their own position."""
-    __slots__ = ("src", "pos")
+    __slots__ = ("src", "pos", "indices")
 
-    def __init__(self, src, pos=0):
-        self.src, self.pos = src, pos
+    def __init__(self, src, pos=0, indices=False):
+        # indices: `char_indices()` — element k is the pair (bidx(src, k), at(src, k)); bidx is the byte offset of character k
+        self.src, self.pos, self.indices = src, pos, indices
 
     def __repr__(self):
-        return "chars(%s)@%d" % (fmt(self.src), self.pos)
+        return "%s(%s)@%d" % ("char_indices" if self.indices else "chars", fmt(self.src), self.pos)
 
 
 class MapV:
@@ -1029,6 +1030,12 @@ class Evaluator:
                 if 0 <= lo <= hi <= len(b):
                     return b[lo:hi]
                 raise Panic("slice index out of range")
+        if self.char_streams and isinstance(b, Sym) and isinstance(i, St) and i.ty.startswith("core::ops::range::RangeFrom") \
+                and isinstance(i.f.get("start"), Sym) and i.f["start"].t[0] == "bidx" and i.f["start"].t[1] == b.t:
+            # `&s[i..]` where i is the byte offset of character k of s (always a character boundary): the suffix from character k
+            x = Sym(("suffix", b.t, i.f["start"].t[2]))
+            self.types.setdefault(x.t, "str")
+            return x
         if isinstance(b, Sym):
             # recorded so that a rule can ask whether the path established a sufficient length before this point
             self.path.events.append(Event("index", None, [b, i], None, n.get("sp"), name="[]"))
@@ -1371,8 +1378,11 @@ class Evaluator:
                 cands = self.F.find(r"^<(\w+::)*%s as core::convert::From<alloc::vec::Vec>>::from$" % re.escape(head))
                 if cands:
                     return self.call_fn(cands[0], [a0], depth, node)
-        if self.char_streams and isinstance(a0, Sym) and name == "chars" and (base.endswith("str::chars") or "str" in base):
-            return CharStream(a0.t, 0)
+        if self.char_streams and isinstance(a0, Sym) and name in ("chars", "char_indices") and (base.endswith("str::" + name) or "str" in base):
+            # the characters of `&s[bidx(s, k)..]` are the characters of `s` from position k on
+            if a0.t[0] == "suffix" and name == "chars":
+                return CharStream(a0.t[1], a0.t[2])
+            return CharStream(a0.t, 0, name == "char_indices")
         if isinstance(a0, CharStream):
             r = self.stream_builtin(name, a0, args, depth, node)
             if r is not NotImplemented:
@@ -1897,10 +1907,18 @@ class Evaluator:
                     return False
         return self.path.decide(("has", st.src, k), [True, False])
 
+    def stream_elem(self, st, k):
+        x = Sym(("at", st.src, k))
+        self.types.setdefault(x.t, "char")
+        if st.indices:
+            i = Sym(("bidx", st.src, k))
+            self.types.setdefault(i.t, "usize")
+            return (i, x)
+        return x
+
     def stream_next(self, st):
         if self.stream_has(st, st.pos):
-            x = Sym(("at", st.src, st.pos))
-            self.types.setdefault(x.t, "char")
+            x = self.stream_elem(st, st.pos)
             st.pos += 1
             return V("Some", (x,))
         return V("None")
@@ -1909,12 +1927,12 @@ class Evaluator:
         if name == "next" and len(args) == 1:
             return self.stream_next(st)
         if name == "clone":
-            return CharStream(st.src, st.pos)
+            return CharStream(st.src, st.pos, st.indices)
         if name in ("by_ref", "peekable", "into_iter", "fuse", "iter"):
             return st
         if name == "peek" and len(args) == 1:
             if self.stream_has(st, st.pos):
-                return V("Some", (Sym(("at", st.src, st.pos)),))
+                return V("Some", (self.stream_elem(st, st.pos),))
             return V("None")
         if name in ("take", "skip", "nth", "advance_by") and len(args) == 2 and isinstance(args[1], int) and not isinstance(args[1], bool):
             n = args[1]
